@@ -180,7 +180,7 @@ def flatten(cd):
     return [ins for b in cd.blocks for ins in b]
 
 
-EDITS = ["insert_nops", "insert_nops_big", "duplicate_instruction", "drop_instruction", "drop_additional_args", "shift_override",
+EDITS = ["none", "none", "insert_nops", "insert_nops_big", "duplicate_instruction", "drop_instruction", "drop_additional_args", "shift_override",
          "collide_override", "collide_override_eq", "retarget_jump", "clear_lines", "append_block"]
 # edits after which the position overrides may be inconsistent (to_code may then raise instead)
 MAY_BE_INCONSISTENT = set(["drop_instruction", "drop_additional_args", "shift_override", "collide_override", "collide_override_eq"])
@@ -193,6 +193,9 @@ def edit(cd, rng, op):
     I, NA = cdm.Instruction, cdm.NoArg
     blocks = [list(b) for b in cd.blocks]
     flat = flatten(cd)
+    if op == "none":
+        # decoded data as it is (private overrides and additional args included) is well-formed data too
+        return cd, "unedited decoded data"
     if op in ("insert_nops", "insert_nops_big"):
         # before a jump target (start of a block that some jump targets), so that operands must widen
         tb = [ins.arg.target for ins in flat if type(ins.arg).__name__ == "Jump"]
